@@ -561,7 +561,7 @@ def run_loop(prop, tier, scratch, faults, replay=None):
     C.require_ok(ev2, 'KvassEval')
     rviol = C.read_ndjson(os.path.join(sd, 'viol.ndjson'))
     return dict(scheds={s['id']: s for s in scheds}, runs=runs, mc=mc, tstates=tstates, ttrans=ttrans, drift=drift,
-                pairs=pairs, cviol=cviol, rviol=rviol, progress=progress)
+                pairs=pairs, cviol=cviol, rviol=rviol, progress=progress, sd=sd)
 
 
 def check(prop, tier, replay=None):
@@ -624,6 +624,14 @@ def collect(prop, tier, scratch, faults, replay=None):
                                    replay=dict(property=prop, schedule=r['scheds'][v['id']], violation=v['sig'],
                                                final_world=r['runs'][v['id']]['steps'][-1]['world']),
                                    text='run %d: %s' % (v['id'], json.dumps(v['sig'], sort_keys=True))))
+        sysnote = None
+        if prop == 'C06' and not replay:
+            # the same run-level formulas on the whole system as separate processes
+            from . import system as SY
+            sviol, sysnote = SY.evaluate(scratch, r['sd'], tier, C.seed())
+            for v in sviol:
+                v['replay']['property'] = prop
+                violations.append(v)
         ncyc = len(r['pairs'])
         nsteps = sum(len(x['steps']) for x in r['runs'].values())
         some = next(iter(r['runs'].values()))
@@ -636,7 +644,7 @@ def collect(prop, tier, scratch, faults, replay=None):
                    rule='one evaluation = one closed-loop run on the real Coordinator with real sidecars (service, targets manager + store, injector, proxy): discovery and probing of up to %d targets, '
                         '3-7 rounds of cycle / scrape rounds / environment changes (targets added, removed, growing, going down)%s, then a quiet tail of %d rounds (cycle + three scrape rounds on every shard); '
                         'non-trivial: at least one target was assigned' % (NT, ' / faults (shard unready, GET failing, config push rejected or stale, targets POST lost, scale request failing, sidecar restart from its store)' if faults else '', QUIET_ROUNDS),
-                   exhaustive=False, option_presets=PRESETS, model_constants=CY.MODEL_CONSTANTS,
+                   exhaustive=False, option_presets=PRESETS, model_constants=CY.MODEL_CONSTANTS, system_processes=sysnote,
                    explanation='Kvass.tla (closed loop of one replica) is model-checked exhaustively in a small configuration (2 targets, <=3 shards, min-shard 2, a small and a large size): safety (no gap) over every interleaving with environment changes / one fault, and liveness (eventually converged for good) under fairness; every recorded run is validated step by step against Kvass.tla by TLC '
                                '(KvassTrace: the world after each environment step must be the specified one, the world after a cycle must be reachable through some order of the coordinator\'s internal steps); '
                                'TLC evaluates convergence / stability / no-gap on the recorded worlds (KvassEval) and the cycle formulas on every cycle the coordinator ran (RebalanceEval)')
